@@ -318,6 +318,96 @@ def compressor_limits_rule(ctx, mpq, pid):
 
 
 
+def sparse_header_rule(ctx, mpq, pid):
+    """the sparse codec's 4-byte length header: the value the decoder assembles from the first four bytes equals the length the
+    encoder put there, for lengths that exercise every byte (up to 2^32 - 1) — evaluated on both functions' own expressions"""
+    from .c10 import _ival, _NoEval
+    R = ctx.rule("%s.sparse-length-header-decodes-what-the-encoder-writes" % pid, "sparse::decompress assembles from bytes 0..4 the length sparse::compress pushed there, for 9 lengths covering every byte position", floor=1)
+    enc = mpq.fns.get(C + "algorithms::sparse::compress")
+    dec = mpq.fns.get(C + "algorithms::sparse::decompress")
+    if enc is None or dec is None or not enc.hir or not dec.hir:
+        ctx.bad(R, "sparse-header|missing", "-", "sparse::compress / decompress not found", "anchor gone")
+        return
+    ctx.saw_fn(enc)
+    ctx.saw_fn(dec)
+    ebody, dbody = enc.hir["body"], dec.hir["body"]
+    elets = {l["pat"]["name"]: l["init"] for l in hirq.find(ebody, "let") if l["pat"].get("k") == "bind" and l.get("init") is not None}
+    ep = next(iter(hirq.pat_binds(enc.hir["params"][0])), "data")
+    dp = next(iter(hirq.pat_binds(dec.hir["params"][0])), "data")
+    # encoder: the first four bytes appended to the output (push x4, or extend_from_slice(&n.to_be_bytes()))
+    top = hirq.strip(ebody).get("stmts") or []
+    pushes = []
+    whole = None
+    for st_ in top:
+        for x in hirq.walk(st_, into_closures=False):
+            if x.get("k") == "mcall" and x["m"] == "push" and len(pushes) < 4 and whole is None:
+                pushes.append(x["args"][0])
+            elif x.get("k") == "mcall" and x["m"] in ("extend_from_slice", "extend") and not pushes and whole is None:
+                inner = [y for y in hirq.walk(x["args"][0]) if y.get("k") == "mcall" and y["m"] in ("to_be_bytes", "to_le_bytes")]
+                if inner:
+                    whole = inner[0]
+        if len(pushes) >= 4 or whole is not None:
+            break
+        if st_.get("k") in ("while", "loop", "for"):
+            break
+    # decoder: `let mut v = 0; v |= (data[i] as u32) << k; ...` or from_be_bytes([..])
+    acc = None
+    steps = []
+    direct = None
+    for st_ in hirq.strip(dbody).get("stmts") or []:
+        if st_.get("k") == "let" and st_["pat"].get("k") == "bind" and st_.get("init") is not None:
+            i0 = hirq.strip(st_["init"])
+            if i0.get("k") == "call" and re.search(r"::from_(be|le)_bytes$", i0.get("fn") or "") and direct is None and acc is None:
+                direct = (st_["pat"]["name"], i0)
+                break
+            if hirq.lit_int(i0) == 0 and acc is None:
+                acc = st_["pat"]["name"]
+                continue
+        if acc is not None:
+            x = st_ if st_.get("k") == "assignop" else (st_.get("e") if st_.get("k") in ("semi", "expr") else None)
+            if x is not None and x.get("k") == "assignop" and hirq.render(x["l"]) == acc:
+                steps.append(x)
+                continue
+            if steps:
+                break
+    if (len(pushes) < 4 and whole is None) or (not steps and direct is None):
+        ctx.bad(R, "sparse-header|shape", dec.where, "header code not recognised (encoder pushes: %d, decoder steps: %d)" % (len(pushes), len(steps)), "shape changed")
+        return
+    bad = None
+    try:
+        for N in (0, 1, 0x12, 0x1234, 0x8001, 0x10000, 0x123456, 0x12345678, 0xFFFFFFFF):
+            lf = (lambda r_, N=N: N if r_ == "%s.len()" % ep else None)
+            if whole is not None:
+                v = _ival(whole["recv"], {"__leaf__": lf, "__ty__": mpq.ty}, elets) & 0xFFFFFFFF
+                hdr = list(v.to_bytes(4, "big" if whole["m"] == "to_be_bytes" else "little"))
+            else:
+                hdr = [_ival(e, {"__leaf__": lf, "__ty__": mpq.ty}, elets) & 0xFF for e in pushes[:4]]
+            dl = (lambda r_, hdr=hdr: (hdr[int(re.fullmatch(r"%s\[(\d)\]" % re.escape(dp), r_).group(1))] if re.fullmatch(r"%s\[(\d)\]" % re.escape(dp), r_) and int(re.fullmatch(r"%s\[(\d)\]" % re.escape(dp), r_).group(1)) < 4 else None))
+            if direct is not None:
+                arr = hirq.strip(direct[1]["args"][0])
+                bs = [_ival(e, {"__leaf__": dl, "__ty__": mpq.ty}, {}) for e in arr.get("es") or []]
+                got = int.from_bytes(bytes(bs), "big" if direct[1]["fn"].endswith("from_be_bytes") else "little")
+            else:
+                got = 0
+                for x in steps:
+                    val = _ival(x["r"], {"__leaf__": dl, "__ty__": mpq.ty, acc: got}, {})
+                    op = x.get("op")
+                    got = (got | val) if op in ("|", "|=", "BitOr") else (got + val) if op in ("+", "+=", "Add") else (got ^ val) if op in ("^", "^=", "BitXor") else None
+                    if got is None:
+                        raise _NoEval("operator %s" % op)
+                got &= 0xFFFFFFFF
+            if got != N and bad is None:
+                bad = (N, hdr, got)
+    except (_NoEval, AttributeError, TypeError) as e:
+        ctx.bad(R, "sparse-header|not-evaluable", dec.where, "header code not evaluable: %s" % e, "shape changed")
+        return
+    if bad:
+        ctx.bad(R, "sparse-header|byte-order", dec.where, "a %d-byte block is announced by the encoder as bytes %s, which the decoder reads as %d" % (bad[0], " ".join("%02X" % b for b in bad[1]), bad[2]),
+                "the decoder refuses (or mis-sizes) every block whose length uses the disagreeing bytes: the compressor's own output of 64 KiB and more is rejected")
+    else:
+        ctx.ok(R, {"encoder": "push x4" if whole is None else whole["m"], "decoder": "or-steps x%d" % len(steps) if direct is None else "from_bytes", "lengths": 9})
+
+
 def run(ctx):
     prog = ctx.prog
     mpq = prog.crate("wow_mpq")
@@ -639,6 +729,7 @@ def run(ctx):
     compressor_limits_rule(ctx, mpq, "C03")
 
     sparse_decoder_clamp_rule(ctx, mpq, "C03")
+    sparse_header_rule(ctx, mpq, "C03")
 
     # ADPCM decoder: the channel advances once per *sample*; a marker byte that carries no sample gives its slot back
     R_adp = ctx.rule("C03.adpcm-channel-advances-once-per-sample", "in the ADPCM decode loop every arm of the per-byte decision either emits a sample or restores the channel index it was handed", floor=3)
